@@ -7,7 +7,7 @@ from pathlib import Path
 
 VERIF = Path("/verif")
 ROUND = int(sys.argv[1]) if len(sys.argv) > 1 else 6
-LETTERS, PREFIX = {6: ({"A": "J", "B": "K"}, "U"), 7: ({"A": "L", "B": "M"}, "V"), 8: ({"A": "N", "B": "P"}, "W"), 9: ({"A": "Q"}, "X"), 10: ({"A": "R"}, "Y")}[ROUND]
+LETTERS, PREFIX = {6: ({"A": "J", "B": "K"}, "U"), 7: ({"A": "L", "B": "M"}, "V"), 8: ({"A": "N", "B": "P"}, "W"), 9: ({"A": "Q"}, "X"), 10: ({"A": "R"}, "Y"), 11: ({"A": "S"}, "Z")}[ROUND]
 SRC, RES1, RES2 = Path(f"/root/r{ROUND}"), Path(f"/root/r{ROUND}res"), Path(f"/root/r{ROUND}res2")
 
 
